@@ -26,7 +26,7 @@ def cprims (chainOK : Bool) (leafAlg : Option Nat) : Prims := fun name args =>
   | _, _ => none
 
 def cfuncs : List Func := [base_validatePayload, base_validateSignerInfo, base_validateCertificateChain, base_getSignatureAlgorithm,
-  base_validateEnvelopeContent, base_validateSigningAndExpiryTime, base_validateSigningSchema]
+  base_validateEnvelopeContent, base_validateSigningAndExpiryTime, base_validateSigningSchema, base_validateSignRequest]
 
 theorem cfind_validatePayload : cfuncs.find? (fun f => f.name == "validatePayload") = some base_validatePayload := rfl
 theorem cfind_validateSignerInfo : cfuncs.find? (fun f => f.name == "validateSignerInfo") = some base_validateSignerInfo := rfl
@@ -34,6 +34,7 @@ theorem cfind_validateCertificateChain : cfuncs.find? (fun f => f.name == "valid
 theorem cfind_getSignatureAlgorithm : cfuncs.find? (fun f => f.name == "getSignatureAlgorithm") = some base_getSignatureAlgorithm := rfl
 theorem cfind_validateEnvelopeContent : cfuncs.find? (fun f => f.name == "validateEnvelopeContent") = some base_validateEnvelopeContent := rfl
 theorem cfind_validateSigningAndExpiryTime : cfuncs.find? (fun f => f.name == "validateSigningAndExpiryTime") = some base_validateSigningAndExpiryTime := rfl
+theorem cfind_validateSignRequest : cfuncs.find? (fun f => f.name == "validateSignRequest") = some base_validateSignRequest := rfl
 theorem cfind_validateSigningSchema : cfuncs.find? (fun f => f.name == "validateSigningSchema") = some base_validateSigningSchema := rfl
 
 macro "base_eval" "[" ts:Lean.Parser.Tactic.simpLemma,* "]" : tactic =>
@@ -249,5 +250,83 @@ theorem validateEnvelopeContent_model (n : Nat) (ci : NotationCore.Base.ChainInf
 
 section
 variable (chainOK : Bool) (leafAlg : Option Nat)
+/-! ### `validateSignRequest` (the early refusals of `Sign`) -/
+
+/-- a signer whose `KeySpec()` succeeds or fails -/
+def signerV (keySpecOK : Bool) : Val := .obj [("keySpecOK", .bool keySpecOK)]
+
+def rprims : Prims := fun name args =>
+  match name, args with
+  | "KeySpec", [s] => (match field s "keySpecOK" with
+      | some (.bool true) => some (.tuple [.opaque 1, .nil])
+      | some (.bool false) => some (.tuple [.opaque 1, primErr])
+      | _ => none)
+  | _, _ => none
+
+def requestV (payloadLen : Nat) (st ex : Int) (signer : Option Bool) (scheme : String) : Val :=
+  .obj [("Payload", payloadV payloadLen), ("SigningTime", .int st), ("Expiry", .int ex),
+    ("Signer", match signer with | none => .nil | some ok => signerV ok), ("SigningScheme", .str scheme)]
+
+local notation "rsem" => sem rprims cfuncs
+
+theorem r_validatePayload (n len : Nat) :
+    rsem (n + 1) "validatePayload" [payloadV len] = some (if len = 0 then .err "validatePayload" 0 [] else .nil) := by
+  rw [sem_succ, cfind_validatePayload]
+  cases len with
+  | zero => simp [base_validatePayload, payloadV, run, pack, execBlock, exec, eval, evalArgs, sbindAll, sbind, sdefine, fset, sget, fget, spop, binop, builtin, field]
+  | succ p =>
+    have hp : ¬ ((p : Int) + 1 = 0) := by omega
+    simp [base_validatePayload, payloadV, run, pack, execBlock, exec, eval, evalArgs, sbindAll, sbind, sdefine, fset, sget, fget, spop, binop, builtin, field, hp]
+
+theorem r_times (n : Nat) (st ex : Int) :
+    rsem (n + 1) "validateSigningAndExpiryTime" [.int st, .int ex]
+      = some (if NotationCore.Base.validateSigningAndExpiryTime st ex then .nil
+              else if isZeroT st then .err "validateSigningAndExpiryTime" 0 []
+              else .err "validateSigningAndExpiryTime" 1 []) := by
+  rw [sem_succ, cfind_validateSigningAndExpiryTime]
+  by_cases h1 : st = -62135596800000000000 <;> by_cases h2 : ex = -62135596800000000000 <;>
+    by_cases h3 : ex < st <;> by_cases h4 : ex = st <;>
+    simp [base_validateSigningAndExpiryTime, NotationCore.Base.validateSigningAndExpiryTime, isZeroT, zeroT, run, pack, execBlock, exec, eval,
+      evalArgs, sbindAll, sbind, sdefine, fset, sget, fget, spop, binop, builtin, rprims, h1, h2, h3, h4] <;> omega
+
+theorem r_scheme (n : Nat) (s : String) :
+    rsem (n + 1) "validateSigningSchema" [.str s] = some (if s = "" then .err "validateSigningSchema" 0 [] else .nil) := by
+  rw [sem_succ, cfind_validateSigningSchema]
+  by_cases h : s = "" <;>
+    simp [base_validateSigningSchema, run, pack, execBlock, exec, eval, evalArgs, sbindAll, sbind, sdefine, fset, sget, fget, spop, binop, builtin, h]
+
+/-- **`validateSignRequest(req)` returns a nil error exactly on a request with a non-empty payload,
+    a signing time that is set and an expiry (if any) strictly after it, a signer whose `KeySpec()`
+    succeeds, and a signing scheme** — the early refusals of C16 -/
+theorem validateSignRequest_nil_iff (n : Nat) (payloadLen : Nat) (st ex : Int) (signer : Option Bool) (scheme : String) :
+    rsem (n + 2) "validateSignRequest" [requestV payloadLen st ex signer scheme] = some .nil
+      ↔ (payloadLen != 0 && NotationCore.Base.validateSigningAndExpiryTime st ex && (signer == some true) && scheme != "") = true := by
+  rw [sem_succ, cfind_validateSignRequest]
+  have hp := r_validatePayload n payloadLen
+  have ht := r_times n st ex
+  have hs := r_scheme n scheme
+  cases payloadLen with
+  | zero =>
+    simp at hp
+    simp [base_validateSignRequest, requestV, run, pack, execBlock, exec, eval, evalArgs, sbindAll, sbind, sdefine, fset, sget, fget,
+      spop, binop, builtin, field, rprims, hp]
+  | succ p =>
+    simp at hp
+    cases hT : NotationCore.Base.validateSigningAndExpiryTime st ex
+    · rw [hT] at ht
+      by_cases hz : isZeroT st = true <;> simp [hz] at ht <;>
+        simp [base_validateSignRequest, requestV, run, pack, execBlock, exec, eval, evalArgs, sbindAll, sbind, sdefine, fset, sget, fget,
+          spop, binop, builtin, field, rprims, hp, ht]
+    · rw [hT] at ht
+      simp at ht
+      cases signer with
+      | none =>
+        simp [base_validateSignRequest, requestV, run, pack, execBlock, exec, eval, evalArgs, sbindAll, sbind, sdefine, fset, sget, fget,
+          spop, binop, builtin, field, rprims, hp, ht]
+      | some ok =>
+        by_cases hsc : scheme = "" <;> simp [hsc] at hs <;> cases ok <;>
+          simp [base_validateSignRequest, requestV, signerV, run, pack, execBlock, exec, eval, evalArgs, sbindAll, sbind, sdefine, fset, sget,
+            fget, spop, binop, builtin, field, rprims, primErr, hp, ht, hs, hsc]
+
 end
 end NotationCore.Tie.Code.Base
